@@ -540,7 +540,12 @@ inline Res exec_awskeys(const Args &a) {
     exit(3);
   }
   char *id = nullptr, *sec = nullptr;
+  // one file in eight: everything reads fine and the final fclose() reports an error (the stream is gone all the same)
+  bool fcf = (pbt::fnv(in) & 7) == 5;
+  if (fcf) shim_fclose_fail_next(1);
   int rc = shim_aws_readkeys(path, &id, &sec);
+  if (fcf && shim_fclose_failed()) r.c("fclose-reports-failure");
+  shim_fclose_fail_next(0);
   char m[300];
   if (rc != 0 && rc != -1) {
     snprintf(m, sizeof m, "aws_readkeys returned %d, expected 0 or -1", rc);
@@ -620,7 +625,11 @@ inline Res exec_readpass(const Args &a) {
     exit(3);
   }
   char *pw = nullptr;
+  bool fcf = (pbt::fnv(in) & 7) == 5;
+  if (fcf) shim_fclose_fail_next(1);
   int rc = shim_readpass_file(path, &pw);
+  if (fcf && shim_fclose_failed()) r.c("fclose-reports-failure");
+  shim_fclose_fail_next(0);
   char m[300];
   if (rc != 0 && rc != -1) {
     snprintf(m, sizeof m, "readpass_file returned %d, expected 0 or -1", rc);
